@@ -31,6 +31,9 @@ structure Mech (Req Resp : Type) where
   ttl : Req → Resp → Nat
   /-- is `accept` applied to an entry served from the cache -/
   recheck : Bool
+  /-- what a value looks like after it went through the cache: entries are stored serialised (`json.Marshal`,
+  `httputil.DumpResponse`, raw bytes) and decoded again on a hit -/
+  recode : Resp → Resp
 
 inductive Outcome (Resp : Type) where
   | ok (v : Resp)
@@ -66,7 +69,7 @@ structure StepResult (Resp : Type) where
 def step {Req Resp : Type} (m : Mech Req Resp) (st : Store Resp) (now : Nat) (r : Req) : StepResult Resp :=
   match (if m.enabled r then st.get (m.key r) now else none) with
   | some v =>
-    if m.recheck && !m.accept r v then ⟨st, .rejected, 0, true⟩ else ⟨st, .ok v, 0, true⟩
+    if m.recheck && !m.accept r (m.recode v) then ⟨st, .rejected, 0, true⟩ else ⟨st, .ok (m.recode v), 0, true⟩
   | none =>
     match m.fresh r with
     | none => ⟨st, .failed, 1, false⟩
@@ -100,12 +103,13 @@ structure KReq where
 /-- `fs`: what the key function writes; `deps`: what the remote evaluation reads; the remote system is a function
 `remote` of those values (it does not change between the requests of one history) -/
 def keyed {Resp : Type} (H : Bytes → Bytes) (fs : List Field) (deps : List Dep) (remote : List View → Option Resp)
-    (accepts : Nat → Resp → Bool) (recheck : Bool) : Mech KReq Resp where
+    (accepts : Nat → Resp → Bool) (recheck : Bool) (recode : Resp → Resp := id) : Mech KReq Resp where
   key r := key H fs r.env
   fresh r := remote (deps.map (·.view r.env))
   accept r v := accepts r.policy v
   enabled r := r.enabled
   ttl r _ := r.ttl
   recheck := recheck
+  recode := recode
 
 end Heimdall.CacheExec
